@@ -1,14 +1,177 @@
-(** C08 - Harris-Michael containers: property theorems (statements only). *)
-From Coq Require Import NArith List Bool.
+(** C08 - harris_michael_list_based_set is a linearizable set: property theorems (statements only; the
+    proofs live in Proof/HmlInv.v).  [HmlDefs] is the step-level model of
+    harris_michael_list_based_set<long, reclaimer<GC>> (find with helping, emplace_or_get, erase(key),
+    contains), tied to the code by trace correspondence (driver instance [hml], harness h_hm with
+    -DXV_RECL=GC).  [reach init step st] quantifies over any number of threads, any program, any schedule.
+
+    Vocabulary: node 0 is the sentinel whose next field is [head]; [chain st] = nodes reachable from
+    [head]; [abs_keys st] = keys of the unmarked nodes of the chain; ghosts [g_abs] (abstract set,
+    updated at the linearization points of the mutators), [g_lin] (successful mutators in linearization
+    order), [g_lp t] (membership of the key of t's current call in [g_abs] at its latest candidate
+    linearization point), [g_hist] (completed operations: thread, operation, result, [g_lp] at return),
+    [g_retired].
+
+    Linearization points: insert/new = the successful link CAS (E2); insert/old and contains/yes = the
+    relaxed load of cur->next in find (F3) that saw the node with the searched key unmarked;
+    erase/ok = the successful mark CAS (D1); erase/no, contains/no = the last load of the find that
+    returns false (the acquire load of prev that reads null, F2, or the validating load of prev, F6). *)
+From Coq Require Import NArith List Sorted.
+From XV Require Import Base.Word Conc.Lts Conc.Ev Model.HmlDefs Proof.HmlInv.
+Import ListNotations.
 Local Open Scope N_scope.
 
-(** the ordering predicate of harris_michael_hash_map with memoize_hash ("hash >= h and key >= k" is
-    used as the stop condition of find): it is monotone in both components.  (Placeholder obligation;
-    the sequential/structural theorems of the list model are added by Proof/HmList.v.) *)
-Theorem C08_stop_monotone : forall h k h1 k1 h2 k2 : N,
-  (h <=? h1) && (k <=? k1) = true -> h1 <= h2 -> k1 <= k2 -> (h <=? h2) && (k <=? k2) = true.
-Proof.
-  intros h k h1 k1 h2 k2 H H1 H2. apply andb_true_iff in H. destruct H as [A B].
-  apply N.leb_le in A. apply N.leb_le in B. apply andb_true_iff. split; apply N.leb_le; eapply N.le_trans; eauto.
-Qed.
-Print Assumptions C08_stop_monotone.
+(** structure: the chain from head is finite, linked, null-terminated, strictly sorted by key, acyclic,
+    its nodes are allocated, head is never marked *)
+Theorem C08_hml_structure : forall st, reach init step st ->
+  head st = hd 0 (chain st) /\
+  linksto (nnext st) (chain st) 0 /\
+  StronglySorted (fun x y => nkey st x < nkey st y) (chain st) /\
+  NoDup (chain st) /\
+  (forall x, In x (chain st) -> x <> 0 /\ x < nalloc st) /\
+  nmark st 0 = false.
+Proof. exact hml_structure. Qed.
+Print Assumptions C08_hml_structure.
+
+(** keys never change; a marked node is never unmarked and its next pointer never changes
+    (between any two states of an execution) *)
+Theorem C08_hml_frozen : forall s s', reach init step s -> reach_from step s s' ->
+  nalloc s <= nalloc s' /\
+  forall x, (x < nalloc s -> nkey s' x = nkey s x) /\
+            (nmark s x = true -> nmark s' x = true /\ nnext s' x = nnext s x).
+Proof. exact hml_frozen. Qed.
+Print Assumptions C08_hml_frozen.
+
+(** every node held in a local variable of a thread (start, save/prev, cur, next, the new node) was
+    allocated and is null/&head, reachable, retired, or the thread's own not yet linked node *)
+Theorem C08_hml_locals : forall st, reach init step st -> forall t x, In x (held (th st t)) ->
+  x < nalloc st /\
+  (x = 0 \/ In x (chain st) \/ In x (g_retired st) \/ fresh_of (th st t) = Some x).
+Proof. exact hml_locals. Qed.
+Print Assumptions C08_hml_locals.
+
+(** retired nodes: retired at most once, not reachable, marked; marked nodes are reachable or retired;
+    a linked node that is not marked is reachable (unlinked nodes are marked) *)
+Theorem C08_hml_retired : forall st, reach init step st ->
+  NoDup (g_retired st) /\
+  (forall x, In x (g_retired st) -> ~ In x (chain st) /\ nmark st x = true /\ x <> 0 /\ x < nalloc st) /\
+  (forall x, nmark st x = true -> In x (chain st) \/ In x (g_retired st)) /\
+  (forall t k n, In (LIns t k n) (g_lin st) -> nmark st n = false -> In n (chain st)).
+Proof. exact hml_retired. Qed.
+Print Assumptions C08_hml_retired.
+
+(** a node is retired only in the step that unlinks it *)
+Theorem C08_hml_retire_step : forall s a s' es, reach init step s -> step s a = Some (s', es) ->
+  g_retired s' = g_retired s \/
+  exists t x, a = Step t /\ g_retired s' = g_retired s ++ [x] /\ In (ENote t 120 [x]) es /\
+    In x (chain s) /\ ~ In x (chain s') /\ ~ In x (g_retired s) /\ nmark s x = true /\
+    (forall y, In y (chain s) <-> y = x \/ In y (chain s')).
+Proof. exact hml_retire_step. Qed.
+Print Assumptions C08_hml_retire_step.
+
+(** abstraction: g_abs = keys of the unmarked reachable nodes (as duplicate-free sets) = fold of the
+    successful mutators in linearization order *)
+Theorem C08_hml_abstraction : forall st, reach init step st ->
+  NoDup (g_abs st) /\ NoDup (abs_keys st) /\
+  (forall k, In k (g_abs st) <-> In k (abs_keys st)) /\
+  g_abs st = apply_lin (g_lin st).
+Proof. exact hml_abs. Qed.
+Print Assumptions C08_hml_abstraction.
+
+(** linearization points of the mutators: the abstract set changes only at a successful link CAS, which
+    adds an absent key and returns new, and at a successful mark CAS of an unmarked reachable node,
+    which removes its (present) key *)
+Theorem C08_hml_mutator_lp : forall s a s' es, reach init step s -> step s a = Some (s', es) ->
+  (g_abs s' = g_abs s /\ g_lin s' = g_lin s) \/
+  (exists t n key sv cur, a = Step t /\ th s t = E2 n key sv cur /\
+     nnext s sv = cur /\ nmark s sv = false /\
+     ~ In key (g_abs s) /\ g_abs s' = key :: g_abs s /\ g_lin s' = g_lin s ++ [LIns t key n] /\
+     es = [ERmw t (L_next sv) mo_rel (vmp cur false) (vmp n false); ret_ev t (OIns key) true]) \/
+  (exists t key sv cur nx, a = Step t /\ th s t = D1 key sv cur nx /\
+     nnext s cur = nx /\ nmark s cur = false /\ nmark s' cur = true /\ nkey s cur = key /\ In cur (chain s) /\
+     In key (g_abs s) /\ g_abs s' = remk key (g_abs s) /\ g_lin s' = g_lin s ++ [LDel t key cur] /\
+     th s' t = D2 key sv cur nx).
+Proof. exact hml_abs_step. Qed.
+Print Assumptions C08_hml_mutator_lp.
+
+(** MAIN RESULT (linearization of results): every completed operation carries a witness [Some m], m = the
+    membership of its key in the abstract set at its linearization point, and
+    insert returned new iff m = false, erase returned ok iff m = true, contains returned m *)
+Theorem C08_hml_results : forall st, reach init step st -> forall h, In h (g_hist st) ->
+  match h_op h with
+  | OIns _ => h_wit h = Some (negb (h_res h))
+  | ODel _ | OHas _ => h_wit h = Some (h_res h)
+  end.
+Proof. exact hml_hist. Qed.
+Print Assumptions C08_hml_results.
+
+(** MAIN RESULT (trace level): for every call of an operation [o] by a thread [u] ([in_call u o s0 s]: u took
+    the call's first step from s0 and has not returned before s) and the step returning its result [r], there
+    is a state [s1] inside the call such that [r] is the sequential set's answer ([res_for]: insert -> key
+    absent, erase -> key present, contains -> membership) for the abstract set at [s1] *)
+Theorem C08_hml_call_linearizable : forall u o s0 s a s' es r,
+  reach init step s0 -> in_call u o s0 s -> step s a = Some (s', es) -> In (ERet u r) es ->
+  exists b s1, r = [op_code o; b2n b] /\ in_call u o s0 s1 /\ reach_from step s1 s' /\
+    b = res_for o (memb (op_key o) (g_abs s1)).
+Proof. exact hml_call_linearizable. Qed.
+Print Assumptions C08_hml_call_linearizable.
+
+(** the witness is honest: [g_lp u] changes only in steps of u itself; it is reset by the first step of a
+    call and otherwise set to the membership of the call's key in [g_abs] of the state in which the step is
+    taken, i.e. at an instant inside the call *)
+Theorem C08_hml_witness_step : forall s a s' es u, step s a = Some (s', es) ->
+  g_lp s' u = g_lp s u \/
+  (a = Step u /\ exists o, cur_op (th s u) = Some o /\
+     ((th s u = Begin o /\ g_lp s' u = None) \/ g_lp s' u = Some (memb (op_key o) (g_abs s)))).
+Proof. exact hml_lp_step. Qed.
+Print Assumptions C08_hml_witness_step.
+
+(** the operation of a call does not change until it returns *)
+Theorem C08_hml_op_step : forall s a s' es u o, step s a = Some (s', es) -> cur_op (th s u) = Some o ->
+  th s' u = Idle \/ cur_op (th s' u) = Some o.
+Proof. exact hml_op_step. Qed.
+Print Assumptions C08_hml_op_step.
+
+(** the result printed in the trace is the one recorded in g_hist, with the thread's g_lp as witness *)
+Theorem C08_hml_ret_step : forall s a s' es t r, step s a = Some (s', es) -> In (ERet t r) es ->
+  exists o b, a = Step t /\ cur_op (th s t) = Some o /\ r = [op_code o; b2n b] /\
+    g_hist s' = g_hist s ++ [mkH t o b (g_lp s' t)] /\ th s' t = Idle.
+Proof. exact hml_ret_step. Qed.
+Print Assumptions C08_hml_ret_step.
+
+(** successful mutators: each LDel is a successful mark CAS of a distinct node carrying the erased key
+    (exactly one of several racing erases of a node succeeds); each LIns linked a distinct node *)
+Theorem C08_hml_one_eraser : forall st, reach init step st ->
+  (forall t k n, In (LDel t k n) (g_lin st) -> nmark st n = true /\ nkey st n = k) /\
+  NoDup (del_nodes (g_lin st)) /\
+  (forall t k n, In (LIns t k n) (g_lin st) ->
+     (In n (chain st) \/ In n (g_retired st)) /\ n <> 0 /\ nkey st n = k) /\
+  NoDup (ins_nodes (g_lin st)).
+Proof. exact hml_lin_nodes. Qed.
+Print Assumptions C08_hml_one_eraser.
+
+(** per thread: the successful mutators in linearization order = the thread's completed successful
+    insert/erase operations in program order (+ the erase that marked its node and has not returned):
+    insert returns new iff it performed the link CAS, erase returns ok iff it performed the mark CAS *)
+Theorem C08_hml_success_iff_cas : forall st, reach init step st -> forall t,
+  proj_lin t (g_lin st) = proj_hist t (g_hist st) ++ pending (th st t).
+Proof. exact hml_pending. Qed.
+Print Assumptions C08_hml_success_iff_cas.
+
+(** conservation: at quiescence the keys in the list are the fold of the successful operations *)
+Theorem C08_hml_conservation : forall st, reach init step st -> (forall t, th st t = Idle) ->
+  (forall k, In k (abs_keys st) <-> In k (apply_lin (g_lin st))) /\
+  (forall t, proj_lin t (g_lin st) = proj_hist t (g_hist st)).
+Proof. exact hml_quiescent. Qed.
+Print Assumptions C08_hml_conservation.
+
+(** non-vacuity: a reachable state with a marked, still linked node and a pending erase; after a helper
+    unlinked and retired the node; two racing erases *)
+Example C08_hml_nonvacuous :
+  reach init step (st_of ex_marked) /\
+  (let st := st_of ex_marked in
+   chain st = [2; 1] /\ map (nmark st) (chain st) = [false; true] /\ abs_keys st = [1] /\ g_abs st = [1] /\
+   pending (th st 2%nat) = [ODel 2]) /\
+  (let st := st_of ex_helped in chain st = [2] /\ g_retired st = [1] /\ th st 2%nat = D2 2 2 1 0) /\
+  (let st := st_of ex_race_del in
+   g_hist st = [mkH 1 (OIns 5) true (Some false); mkH 3 (ODel 5) false (Some false); mkH 2 (ODel 5) true (Some true)]).
+Proof. split; [apply st_of_reach|]. vm_compute. repeat split. Qed.
